@@ -8,6 +8,10 @@ return true (then the original tip is restored, which must succeed as well).  Hi
 invalid payloads and candidates that are valid only thanks to VBK context delivered by the competing
 chain: these must end at the MAYBE level or invalid, never fully valid.  A fully valid block that fails
 to apply makes the library abort (mutually exclusive flags assert): reported as a crash.
+Trace oracle (guarded hook popTraceHook in PopStateMachine::applyBlock/unapplyBlock): per instance the ALT apply /
+unapply events must follow the documented discipline: applied on an applied parent, unapplied tip-first, a block is
+unapplied only if every block applied after it (and still applied) was fully valid when applied, and a block reaches
+BLOCK_CAN_BE_APPLIED for the first time only in an event where exactly root..parent is applied.
 Correspondence: the op lists through the extracted model (Pop/SmDefs.v), validity levels compared exactly.
 """
 import vlib
